@@ -1,5 +1,5 @@
 (* GENERATED on every run by harness/C16.py translate() with translate/pyexpr2coq_ext.py from
-   /tmp/mt-11320-5648/psiaudio/util.py - do not edit.  n = s.shape[-1]; nbins = len(csd); i = np.arange(n) (sample index);
+   /repo/psiaudio/util.py - do not edit.  n = s.shape[-1]; nbins = len(csd); i = np.arange(n) (sample index);
    absr = |tone_conv|; meansq = mean(s**2); sumsq = sum(|x|**2).  Array glue: see translate/c16_spec.py. *)
 From Coq Require Import Reals.
 From PV Require Import Calib.RBase.
